@@ -37,7 +37,8 @@ ASSUMPTIONS = ['no .xls writer is available offline: the xlrd code path is exerc
                'route lists of services name ROADM sites (the documented case)']
 REQUIRED_COUNTERS = {'workbooks_converted': 30, 'fibre_checks': 200, 'amplifier_placement_checks': 60,
                      'invalid_workbooks': 15, 'service_rows_checked': 40, 'designs_of_converted_topologies': 30,
-                     'xls_xlsx_differentials': 2, 'line_routes_checked': 5, 'ila_route_entries': 5}
+                     'xls_xlsx_differentials': 2, 'line_routes_checked': 5, 'ila_route_entries': 5,
+                     'routes_with_unknown_loose_names': 5}
 CASE_TIMEOUT = {'quick': 300, 'thorough': 600}
 ARROW = '→'
 
@@ -222,7 +223,7 @@ def write_workbook(desc, path, services=None, with_topology=True):
                    'routing: is loose?', 'path bandwidth'])
         for s in services:
             ws.append([s['id'], s['src'], s['dst'], s['trx'], s['mode'], s['spacing'], s['power'], s['nch'],
-                       s['disjoint'], s['path'], s['loose'], s['bw']])
+                       s['disjoint'], s.get('path_cell', s['path']), s['loose'], s['bw']])
     wb.save(path)
 
 
@@ -531,6 +532,14 @@ def gen_services(rng, desc, types):
         if candidates and rng.random() < 0.5:
             a, z, mids, line = rng.choice(candidates)
             row.update(src=a, dst=z, path=' | '.join(mids), line=line)
+    # loose routes may name sites that do not exist: the documented behaviour is to skip them (a strict one is refused);
+    # the names that follow must come out exactly as if the unknown one had not been written
+    for row in rows:
+        if row['path'] and row['loose'] in (None, 'yes', 'Yes') and rng.random() < 0.35:
+            cells = row['path'].split(' | ')
+            for _ in range(rng.choice([1, 1, 2])):
+                cells.insert(rng.randint(0, len(cells) - 1), rng.choice(['Atlantis', 'Nowhere', 'site X']))
+            row['path_cell'] = ' | '.join(cells)
     if len(rows) >= 2 and rng.random() < 0.6:
         rows[0]['disjoint'] = str(rows[1]['id'])
         if len(rows) >= 3 and rng.random() < 0.4:
@@ -583,6 +592,8 @@ def run_service(case, ctx, tmp):
         route = req.get('explicit-route-objects', {}).get('route-object-include-exclude', [])
         exp_nodes = [f'roadm {c}' for c in row['path'].split(' | ')] if row['path'] else []
         exp_hop = 'LOOSE' if row['loose'] in (None, 'yes', 'Yes') else 'STRICT'
+        if row.get('path_cell'):
+            ctx.count('routes_with_unknown_loose_names')
         if row.get('line'):
             # structural oracle for routes naming ILA / FUSED sites: nothing dropped, ROADM entries by name, every
             # other entry an element of the network whose next fibre leaves that site towards the next site of the line
